@@ -217,8 +217,25 @@ pub fn record_c05(args: &Args, mut out: Out) -> usize {
             Some(None) => ("err", "[]".to_string()),
             None => ("panic", "[]".to_string()),
         };
+        // the other public route from a token list to a range: every token parsed on its own, the expansions collected
+        let clean: Vec<String> = l.iter().map(|(b, lit)| format!("{}{}", b, lit)).collect();
+        let cr = guarded(move || {
+            let mut v = vec![];
+            for t in &clean {
+                match t.parse::<HandRangeToken>() {
+                    Ok(tok) => v.extend(tok.into_iter()),
+                    Err(_) => return None,
+                }
+            }
+            Some(range_json(&v.into_iter().collect::<HandRange>()))
+        });
+        let (cres, cj) = match cr {
+            Some(Some(j)) => ("ok", j),
+            Some(None) => ("err", "[]".to_string()),
+            None => ("panic", "[]".to_string()),
+        };
         let toks: Vec<String> = l.iter().map(|(b, lit)| format!("{{\"body\":{},\"w\":{}}}", chars1(b), f32_bits_of_literal(lit))).collect();
-        out.line(&format!("{{\"op\":\"list\",\"toks\":[{}],\"text\":{},\"rres\":\"{}\",\"rng\":{}}}", toks.join(","), jstr(&text), rres, rj));
+        out.line(&format!("{{\"op\":\"list\",\"toks\":[{}],\"text\":{},\"rres\":\"{}\",\"rng\":{},\"cres\":\"{}\",\"crng\":{}}}", toks.join(","), jstr(&text), rres, rj, cres, cj));
     }
     out.finish()
 }
